@@ -113,6 +113,17 @@ def spec_case(chk, i):
         no_pat = (tr, rng.choice(model.records).rust_name)
         flags += ["--no-" + tr, no_pat[1]]
     enabled = {"Copy", "Clone", "Debug"}
+    # Debug switched off (--no-derive-debug), alone or together with --impl-debug (hand-written impls where a derive is impossible):
+    # with the trait off, no type may get it in either form
+    dbg_r = chk.rng("dbg", i).random()
+    if dbg_r < 0.25:
+        flags.append("--no-derive-debug")
+        enabled.discard("Debug")
+    if 0.15 < dbg_r < 0.45:
+        flags.append("--impl-debug")
+    pe_r = chk.rng("pe", i).random()
+    if pe_r < 0.25 and "--with-derive-partialeq" not in flags:
+        flags.append("--impl-partialeq")      # without --with-derive-partialeq the option must stay without effect
     for fl, tr in (("--with-derive-default", "Default"), ("--with-derive-hash", "Hash"), ("--with-derive-partialeq", "PartialEq"), ("--with-derive-eq", "Eq"),
                    ("--with-derive-ord", "Ord"), ("--with-derive-partialord", "PartialOrd")):
         if fl in flags:
@@ -179,6 +190,12 @@ def spec_case(chk, i):
         else:
             notes.append("spec-only disagreement (rustc rejects the added derive): %s" % withheld[:4])
     hard = []
+    disabled_impls = sorted((rn, t) for rn, ts in manual.items() for t in ts if t in NINE and t not in enabled and rn in dict(all_records(model)))
+    if disabled_impls:
+        problems.append("hand-written impls of traits that are switched off by the options: %s" % disabled_impls[:6])
+    disabled_derives = sorted((rn, t) for rn, t in extra if t not in enabled)
+    if disabled_derives:
+        problems.append("derives of traits that are switched off by the options: %s" % disabled_derives[:6])
     for rname, t in extra:
         rec = dict(all_records(model)).get(rname)
         if rec is not None and facts(rec, memo)["fnptr_many"] and t in ("Debug", "Hash", "PartialEq", "Eq", "PartialOrd", "Ord"):
